@@ -2029,7 +2029,10 @@ func (a *align) RandSubAlign(length int, consecutive bool) (Alignment, error) {
 		start = rand.Intn(a.Length() - length + 1)
 		for i = 0; i < a.NbSequences(); i++ {
 			seq = a.seqs[i]
-			subalign.AddSequenceChar(seq.name, seq.SequenceChar()[start:start+length], seq.Comment())
+			// The subalignment owns its data: the window is copied, not re-sliced
+			tmpseq = make([]uint8, length)
+			copy(tmpseq, seq.SequenceChar()[start:start+length])
+			subalign.AddSequenceChar(seq.name, tmpseq, seq.Comment())
 		}
 	} else {
 		permutation = rand.Perm(a.Length())
